@@ -58,6 +58,10 @@ def _(c):
         for n, t in protected_kept(S0, S1, old):
             yield "protected_kept." + n, t, ["C12"]
         yield "all_remaining_fresh", S1.t(MB).forall(lambda r: r.updated > old), ["C13"]
+        from .server import sub_row
+        mb0, mb1 = S0.t(MB), S1.t(MB)
+        yield "only_protected_remain", FA([INT], lambda r: Implies(mb1.live[r], And(
+            mb0.live[r], Or(mb0.cols["updated"][r] > old, sub_row(S0, mb0, r)))), pats=lambda r: [mb1.live[r]]), ["C13"]
         for n in I.DB_INV:
             yield "preserves." + n, I.NAMED[n](S1), ["C10", "C13", "C17"]
         yield "exit.clean", I.Clean(S1), ["C09"]
